@@ -1637,7 +1637,7 @@ class HasRounds(GenericHandler):
                 raise ValueError(
                     f"{subcls.name}: default_rounds ({default_rounds!r}) below min_desired_rounds ({min_desired_rounds!r})"
                 )
-            if max_desired_rounds and default_rounds > max_desired_rounds:
+            if max_desired_rounds is not None and default_rounds > max_desired_rounds:
                 raise ValueError(
                     f"{subcls.name}: default_rounds ({default_rounds!r}) above max_desired_rounds ({max_desired_rounds!r})"
                 )
@@ -1697,7 +1697,7 @@ class HasRounds(GenericHandler):
 
         # check maximum
         mxd = cls.max_desired_rounds
-        if mxd and rounds > mxd:
+        if mxd is not None and rounds > mxd:
             return mxd
 
         return rounds
@@ -1713,7 +1713,7 @@ class HasRounds(GenericHandler):
         """
         # XXX: could precalculate output of this in using() method, and save per-hash cost.
         #      but then users patching cls.vary_rounds / cls.default_rounds would get wrong value.
-        assert default_rounds
+        assert default_rounds is not None
         vary_rounds = cls.vary_rounds
 
         # if vary_rounds specified as % of default, convert it to actual rounds
@@ -1833,7 +1833,7 @@ class HasRounds(GenericHandler):
         if min_desired_rounds and self.rounds < min_desired_rounds:
             return True
         max_desired_rounds = self.max_desired_rounds
-        if max_desired_rounds and self.rounds > max_desired_rounds:
+        if max_desired_rounds is not None and self.rounds > max_desired_rounds:
             return True
         return super()._calc_needs_update(**kwds)
 
